@@ -296,6 +296,11 @@ class SpecDB:
         cur = st
         for exc, name in c.raises.items():
             cond = self.eval_clause(I, cur, self.clause(c, name), pre_env)
+            if exc in c.opts.get("raises_only_if", ()):
+                bad = I.fork(cur)
+                bad.assume(cond)
+                res.append((bad, Exc(exc, f"may be raised by {short}", wh)))
+                continue
             excs, cur = I.may_raise(cur, cond, exc, f"raised by {short}", wh)
             res.extend(excs)
             if cur is None:
@@ -926,6 +931,9 @@ def verify_function(db, modules, qual, bounded=False, sizes=None):
     if found is None:
         raise EngineError(f"function {qual} not found in the repository")
     fdef, modname, clsname = found
+    import pyvc.core as _core
+    _core.reset_fresh()
+    L._ENT_CACHE.clear()
     res = FunctionResult(qual)
     import hashlib
     res.source_sha = hashlib.sha256(ast.unparse(fdef).encode()).hexdigest()[:16]
@@ -986,6 +994,26 @@ def verify_function(db, modules, qual, bounded=False, sizes=None):
         res.assumed |= I.assumed
         res.need_sum = res.need_sum or I.need_sum
     return res
+
+
+def materialize(I, s, v):
+    """name returned array views (R with  forall i. R[i] == <element expression>): postconditions then read R[i], a term with a
+    simple trigger, instead of repeating e.g. xa[n + i] whose index is re-associated by the solver's arithmetic normaliser"""
+    if isinstance(v, TupV) and not isinstance(v, NamedTupV):
+        return TupV([materialize(I, s, x) for x in v.items])
+    if isinstance(v, L.RSeq) and getattr(v, "is_view", False) and v.arr is None and v.dtype == "real" and v.kind == "ndarray" \
+            and v.nanmask is None:
+        try:
+            probe = v.elem(z3.Int("k!probe"))
+        except EngineError:
+            return v
+        if not isinstance(probe, Num) or (z3.is_app(probe.t) and probe.t.decl().kind() == z3.Z3_OP_SELECT and z3.is_const(probe.t.arg(1))):
+            return v
+        A = L.array_term(I, s, v)
+        r = L.RSeq(v.length, L.arr_elem(A, "real"), v.kind, v.dtype, v.is_nd, v.is_f64, arr=A)
+        r.ref = getattr(v, "ref", None)
+        return r
+    return v
 
 
 def frame_goals(db, I, c, s, env, strict_fields=False):
@@ -1071,11 +1099,13 @@ def finish_return(db, I, c, s, env, pre_env, retv, tag):
     fs_guarantee(db, I, c, s, pre_env, wh)
     I.canary(s, "canary-return", wh)
     for exc, name in c.raises.items():
+        if exc in c.opts.get("raises_only_if", ()):
+            continue
         cond = db.eval_clause(I, s, db.clause(c, name), pre_env)
         I.oblige(s, z3.Not(cond), "raises-if", f"{exc}:{name}", wh, assume=False)
     now_env = {k: freeze(I, v, s.heap) for k, v in env.items()}
     e = dict(pre_env)
-    e["result"] = freeze(I, retv, s.heap)
+    e["result"] = materialize(I, s, freeze(I, retv, s.heap))
     now_env["result"] = e["result"]
     scoped = {}
     uses = c.opts.get("uses", {})
@@ -1087,7 +1117,11 @@ def finish_return(db, I, c, s, env, pre_env, retv, tag):
     for name in c.hints.get(("return", "head"), []):
         cl = db.clause(c, name)
         inst = []
-        g = db.eval_clause(I, s, cl, e, env_now=now_env, collect_defs=inst if name in c.opts.get("scoped", ()) else None)
+        e_h = dict(e)
+        for a_ in cl.args:           # hints (not postconditions) may also mention ghost names / locals still live at the return
+            if a_ not in e_h and a_ in s.env and s.env[a_] is not None:
+                e_h[a_] = freeze(I, s.env[a_], s.heap)
+        g = db.eval_clause(I, s, cl, e_h, env_now=now_env, collect_defs=inst if name in c.opts.get("scoped", ()) else None)
         extra = with_scope(name)
         saved = list(s.pc)
         s.pc.extend(extra)
@@ -1134,9 +1168,10 @@ def finish_return(db, I, c, s, env, pre_env, retv, tag):
 def finish_raise(db, I, c, s, env, pre_env, exc, tag):
     wh = f"{exc.where}" + (f"[{tag}]" if tag else "")
     fs_guarantee(db, I, c, s, pre_env, wh + ":" + exc.cls)
-    if exc.cls in c.raises:
-        cond = db.eval_clause(I, s, db.clause(c, c.raises[exc.cls]), pre_env)
-        I.oblige(s, cond, "raises-only-if", f"{exc.cls}:{c.raises[exc.cls]}", wh)
+    declared = exc.cls if exc.cls in c.raises else next((k for k in c.raises if L.exc_subclass(exc.cls, k)), None)
+    if declared is not None:
+        cond = db.eval_clause(I, s, db.clause(c, c.raises[declared]), pre_env)
+        I.oblige(s, cond, "raises-only-if", f"{declared}:{c.raises[declared]}", wh)
         # a rejected request leaves every argument (incl. self) untouched
         fenv = env
         if c.opts.get("constructor"):
@@ -1144,7 +1179,7 @@ def finish_raise(db, I, c, s, env, pre_env, exc, tag):
             fenv = {k: v for k, v in env.items() if k not in c.modifies}
         for path, g in frame_goals(db, I, FrameAll(c), s, fenv, strict_fields=True):
             I.oblige(s, g, "frame-on-raise", f"{exc.cls}:{path}", wh, assume=False)
-    elif exc.cls in c.raises_only:
+    elif exc.cls in c.raises_only or any(L.exc_subclass(exc.cls, k) for k in c.raises_only):
         pass
     else:
         I.oblige(s, z3.BoolVal(False), "no-raise", exc.cls, wh)
